@@ -144,7 +144,7 @@ async def noise_case(loop, case):
             nt = loop.next_timer()
             if nt is None:
                 break
-            await simnet.advance(loop, to=nt)
+            await simnet.advance(loop, to=nt + simnet.CLOCK_BASE)
         if not task.done():
             out = ("pending", None, None)
             task.cancel()
